@@ -246,7 +246,7 @@ def tasks(tier, seed):
                     t.append(dict(part='missing', formula=fi, row=r, col=c, code=code_kind, entry=entry))
     # (c') the declared code is honoured by every evaluation the constructor makes (audit of the weights, of the logit):
     # a value 99999 is an ordinary number when another code is declared; the declared code in a weight is refused
-    for col in ('w', 'x1', 'c'):
+    for col in ('w', 'x1', 'c', 'a2'):
         for what in ('default-code-value-under-a-custom-code', 'declared-custom-code',
                      'default-code-value-under-code-zero', 'declared-code-zero'):
             t.append(dict(part='missing_model', col=col, what=what, fresh=True))
@@ -1193,21 +1193,23 @@ def _missing_model(task, rec):
     from vf.engine import make_db, make_biogeme
     col, what = task['col'], task['what']
     code = 0.0 if what.endswith('code-zero') else -77.0      # 0 is a legal declaration (no cell of the table is 0)
-    rows = [dict(x1=1.0, x2=-1.0, c=1.0, w=1.5), dict(x1=2.0, x2=0.5, c=2.0, w=0.5), dict(x1=0.5, x2=2.0, c=2.0, w=2.0)]
+    # column a2 is read by the availability CONDITION of alternative 2 only (a2 > 0): 99999 there is an ordinary positive number
+    rows = [dict(x1=1.0, x2=-1.0, c=1.0, w=1.5, a2=1.0), dict(x1=2.0, x2=0.5, c=2.0, w=0.5, a2=2.0), dict(x1=0.5, x2=2.0, c=2.0, w=2.0, a2=3.0)]
     value = 99999.0 if what.startswith('default-code-value') else code
-    if col != 'w' and value == 99999.0:
+    if col not in ('w', 'a2') and value == 99999.0:
         # 99999 is not an alternative, and as an attribute it leaves the regular domain of the logit (overflow)
         rec.case(None, ('missing_model', col, what, 'n/a'), outcome='not-applicable')
         return
     rows[1][col] = value
-    ll_t = ('loglogit', ('var', 'c'), ((1, ('*', ('beta', 'b'), ('var', 'x1')), None), (2, ('*', ('beta', 'b'), ('var', 'x2')), None)))
+    ll_t = ('loglogit', ('var', 'c'), ((1, ('*', ('beta', 'b'), ('var', 'x1')), None),
+                                       (2, ('*', ('beta', 'b'), ('var', 'x2')), ('>', ('var', 'a2'), ('num', 0.0)))))
     w_t = ('var', 'w')
     sp = {'b': (0.5, None, None, 0)}
     case = {k: v for k, v in task.items() if k != 'fresh'}
     rec.retire = True
     key = ('missing_model', col, what)
     try:
-        db = make_db(rows, ['x1', 'x2', 'c', 'w'])
+        db = make_db(rows, ['x1', 'x2', 'c', 'w', 'a2'])
         b = make_biogeme(db, {'log_like': R.Builder(sp).build(ll_t), 'weight': R.Builder(sp).build(w_t)}, missing_data=code)
         got = float(b.calculate_likelihood(np.array([0.5]), scaled=False))
     except Exception as e:
